@@ -955,7 +955,10 @@ struct TemplateCore {
 
         while (loop_tag != nullptr) {
             // A loop without value="..." names nothing (and an empty name would match every variable).
-            if ((loop_tag->ValueLength != 0) &&
+            // The variable is the loop's value when it is that name, alone or followed by an index: 'id' is not 'i'.
+            if ((loop_tag->ValueLength != 0) && (tag.Length >= loop_tag->ValueLength) &&
+                ((tag.Length == loop_tag->ValueLength) ||
+                 (var[loop_tag->ValueLength] == TagPatterns::VariableIndexPrefix)) &&
                 StringUtils::IsEqual(var, (content + (loop_tag->Offset + loop_tag->ValueOffset)),
                                      loop_tag->ValueLength)) {
                 tag.IDLength = loop_tag->ValueLength;
